@@ -115,8 +115,12 @@ class Req:
 
     def head(self):
         out = self.method + b" " + self.target + b" " + self.version + b"\r\n"
-        for n, v in self.fields:
-            out += n + b":" + (b" " if v != b"" else b"") + v + b"\r\n"
+        ows = getattr(self, "ows", None)
+        for i, (n, v) in enumerate(self.fields):
+            if ows:
+                out += n + b":" + ows[i][0] + v + ows[i][1] + b"\r\n"
+            else:
+                out += n + b":" + (b" " if v != b"" else b"") + v + b"\r\n"
         return out + b"\r\n"
 
     def render(self):
@@ -255,6 +259,36 @@ def gen_request(rng, lvl, defect=None, http10=False):
         fields.insert(rng.randint(0, len(fields)), (rng.choice([b"Expect", b"expect"]),
                                                      rng.choice([b"100-continue", b"100-Continue", b"100-continue", b"something-else"])))
     rng.shuffle(fields) if rng.random() < 0.3 and defect not in ("cl-two-differ", "te-two", "te-cl") else None
+    feats = set()
+    if rng.random() < 0.5:
+        # the non-canonical field-list family: names in random letter case, optional whitespace of any shape around
+        # the values, the same (non-framing) name several times, list-valued fields
+        def flip(n):
+            return bytes((c ^ 0x20) if (65 <= c <= 90 or 97 <= c <= 122) and rng.random() < 0.5 else c for c in n)
+        fields = [(flip(n), v) for n, v in fields]
+        feats.add("mixed-case-names")
+        if rng.random() < 0.5 and fields:
+            n0, _ = rng.choice(fields)
+            if n0.lower() not in (b"content-length", b"transfer-encoding", b"host", b"expect"):
+                fields.insert(rng.randint(0, len(fields)), (flip(n0), rng.choice([b"dup", b"a, b", b"", b"close-not"])))
+                feats.add("duplicate-field")
+        r.ows = [(rng.choice([b"", b" ", b" ", b"  ", b"\t", b" \t "]), rng.choice([b"", b"", b" ", b"\t", b" \t  "])) for _ in fields]
+        if any(a not in (b"", b" ") or b for a, b in r.ows):
+            feats.add("ows")
+    low = [(n.lower(), v) for n, v in fields]
+    if sum(1 for n, _ in low if n == b"transfer-encoding") > 1:
+        feats.add("several-te")
+    if sum(1 for n, _ in low if n == b"content-length") > 1:
+        feats.add("several-cl")
+    if any(n == b"transfer-encoding" and (b"," in v or b" " in v) for n, v in low):
+        feats.add("list-valued-te")
+    if any(n == b"content-length" and (b"," in v or b" " in v) for n, v in low):
+        feats.add("list-valued-cl")
+    if any(n == b"connection" and b"," in v for n, v in low):
+        feats.add("list-valued-connection")
+    if len({n for n, _ in low}) < len(low):
+        feats.add("repeated-name")
+    r.features = feats
     r.fields = fields
     return r
 
@@ -352,6 +386,9 @@ def ref_chunked(stream, pos, lvl):
             line = line[:-1]
         else:
             if lvl > 0:
+                if lf == n - 1:
+                    # the forbidden bare LF is the last byte received: the decoder looks at two bytes, it may still wait
+                    return "incomplete-or-invalid", body, pos, feats, "bare LF ends a chunk-size line"
                 return "invalid", body, pos, feats, "bare LF ends a chunk-size line"
             feats.add("bare-lf")
         m = re.fullmatch(rb"([0-9A-Fa-f]+)([ \t]*)(;[^\n]*)?", line, re.S)
@@ -377,6 +414,8 @@ def ref_chunked(stream, pos, lvl):
             pos += 2
         elif stream[pos:pos + 1] == b"\n":
             if lvl > 0:
+                if n - pos < 2:
+                    return "incomplete-or-invalid", body, pos, feats, "bare LF after chunk data"
                 return "invalid", body, pos, feats, "bare LF after chunk data"
             feats.add("bare-lf")
             pos += 1
@@ -871,7 +910,10 @@ def gen_stream(rng, lvl, want_defect):
     elif want_defect and r < 0.5:
         stream += b"GET /after HTTP/1.1\r\nHost: h\r\n\r\n"
         behs.append("c200")
-    return stream, behs, [q.defect for q in reqs]
+    feats = set()
+    for q in reqs:
+        feats |= q.features
+    return stream, behs, sorted(feats)
 
 
 # ------------------------------------------------------------------ white-box chunk decoder (bounded-exhaustive)
@@ -912,15 +954,17 @@ class Spec:
                          "Mhd.C03.split_independence", "Mhd.C03.feed_feed", "Mhd.C03.malformed_chunk_rejected",
                          "Mhd.C03.chunk_error_no_resync", "Mhd.C03.pipeline_no_desync", "Mhd.C03.frames_agree_reference", "Mhd.C03.no_reparse",
                          "Mhd.C03.no_further_request", "Mhd.C03.flagsWF_reachable", "Mhd.C03.error_reply_taints",
-                         "Mhd.C03.no_reparse_run"]
+                         "Mhd.C03.no_reparse_run", "Mhd.C03.decideBody_agrees_reference", "Mhd.C03.host_rule_refuses",
+                         "Mhd.C03.framing_defect_no_resync", "Mhd.C03.strict_parser_lawful", "Mhd.C03.take_absorbed",
+                         "Mhd.C03.partial_takes_no_desync", "Mhd.C03.pipeline_no_desync_takes"]
     trusted_base = ["Lean 4 kernel", "axioms: propext, Classical.choice, Quot.sound at most (audited per theorem)",
                     "hand-written model lean/Mhd/Model/Framing*.lean, Chunked.lean tied to connection.c by this run's correspondence",
                     "reference framer / chunk grammar in lean/Mhd/Model/FramingRef.lean (specification, read it) and its independent Python twin in tools/props/C03.py",
                     "tools/props/C03.py gen_framing (thresholds, status codes, header names regenerated)",
                     "harness/h_conn03.c (copy of the shared daemon harness + settle/feed, recv progress shim), harness/h_chunk.c, gcc, ASan/UBSan"]
-    assumptions = ["request heads are canonical (strict CRLF, single SP, token names, no Cookie, method not HEAD/CONNECT, unreserved target): the request-head parser itself is C02's",
+    assumptions = ["the request-head parser is a parameter of the theorems (any incremental scanner delivering any method/target/field list; `LawfulHeadParser`); that the real get_request_line/get_req_headers is one is C02's subject (split independence). The executable model runs the strict splitter (CRLF, single SP, token names in any case, OWS around values, duplicates and list values allowed, no Cookie, method not HEAD/CONNECT, unreserved target); other heads: oracle only",
                    "the interim '100 Continue' reply is not an event of the model (the Expect path need_100_continue / CONTINUE_SENDING is modelled as a state); interim replies are skipped when replies are compared",
-                   "the application takes every byte it is offered (partial takes are exercised by the correspondence only) and always replies at the final call",
+                   "partial upload takes: proved equivalent to the take-all automaton for every schedule of arrivals/iterations/takes (partial_takes_no_desync); the application always replies at the first or at the final call",
                    "socket always writable; one connection; external select mode",
                    "responses have a known size (no close-delimited replies)"]
 
@@ -993,6 +1037,12 @@ class Spec:
             stats["closed" if o.server_closed else "open"] += 1
             stats["defect"][str(c.get("defect"))] = stats["defect"].get(str(c.get("defect")), 0) + 1
             stats["lvl"][str(c["lvl"])] = stats["lvl"].get(str(c["lvl"]), 0) + 1
+            for ft in c.get("features", ()):
+                stats["head_features"][ft] = stats["head_features"].get(ft, 0) + 1
+            if c.get("features"):
+                stats["noncanonical_field_list_cases"] += 1
+            if c.get("take"):
+                stats["take_cases"] += 1
             if errs:
                 sig, det = errs[0]
                 sig = re.sub(r"\d+", "N", sig)
@@ -1004,6 +1054,8 @@ class Spec:
             if ms["state"] == "out-of-domain":
                 stats["model_out_of_domain"] += 1
                 continue
+            if c.get("features"):
+                stats["noncanonical_compared_with_model"] += 1
             diff = None
             if ms["reqs"] != hs["reqs"]:
                 diff = "handler calls differ: code %s model %s" % (hs["reqs"], ms["reqs"])
@@ -1025,9 +1077,10 @@ class Spec:
         for i in range(n_streams):
             lvl = rng.choice(LEVELS)
             defect = rng.choice(ALL_DEFECTS) if rng.random() < 0.55 else None
-            stream, behs, defects = gen_stream(rng, lvl, defect)
+            stream, behs, feats = gen_stream(rng, lvl, defect)
             mem = rng.choice([2048, 4096, 4096, 32768])
             short = len(stream) <= (120 if ctx.tier == "quick" else 260) and rng.random() < (0.25 if ctx.tier == "quick" else 0.5)
+            base = len(cases)
             for segs in segmentations(rng, stream, ctx.tier, short):
                 cases.append({"lvl": lvl, "mem": mem, "behs": behs, "segs": segs, "stream": stream, "defect": defect})
             # byte-by-byte
@@ -1043,6 +1096,13 @@ class Spec:
                     cases.append({"lvl": l2, "mem": mem, "behs": behs, "segs": [stream], "stream": stream, "defect": defect})
             cases.append({"lvl": lvl, "mem": mem, "behs": behs, "segs": [stream], "stream": stream, "defect": defect,
                           "take": rng.choice(["1", "2,all", "1,3", "all,1"])})
+            # the same stream with a partial-take pattern and a segmentation at once
+            if len(stream) > 4:
+                cuts = sorted(rng.sample(range(1, len(stream)), min(3, len(stream) - 1)))
+                cases.append({"lvl": lvl, "mem": mem, "behs": behs, "segs": [stream[a:b] for a, b in zip([0] + cuts, cuts + [len(stream)])],
+                              "stream": stream, "defect": defect, "take": rng.choice(["1", "2,all", "1,3", "all,1", "3", "1,1,all"])})
+            for c in cases[base:]:
+                c["features"] = feats
         return cases
 
     def expect_cases(self, ctx, n):
@@ -1245,6 +1305,108 @@ class Spec:
                     return n
         return n
 
+    def run_bodytake(self, ctx, failures, stats, n):
+        """white-box `process_request_body` with a handler that takes only part of what it is offered (take pattern =
+        list of per-call limits), chunked and identity bodies, vs `procBody` of the model and vs an independent oracle:
+        bytes taken + bytes left = bytes given (nothing lost, duplicated or reordered), the counters advance by exactly the
+        number of bytes taken, the bytes taken are a prefix of what the same buffer yields when everything is taken"""
+        if not self.chunk_harness:
+            return 0
+        rng = ctx.rng
+        lines_in, meta = [], []
+        for _ in range(n):
+            lvl = rng.choice(LEVELS)
+            body = rand_body(rng, 60)
+            takes = [rng.choice([0, 1, 1, 2, 3, 5, 8, 100]) for _ in range(rng.choice([1, 1, 2, 3, 6]))]
+            if rng.random() < 0.7:
+                if rng.random() < 0.7:
+                    enc = chunk_encode(rng, body, lvl, lvl <= 0 and rng.random() < 0.5, lvl > 2) + b"\r\n"
+                else:
+                    enc = defective_chunks(rng, body, rng.choice(DEFECTS_BODY)) + b"\r\n"
+                cur = off = 0
+                if rng.random() < 0.3:
+                    # start inside a chunk
+                    cur = rng.randint(1, len(body))
+                    off = rng.randint(0, cur - 1)
+                    enc = body[off:cur] + b"\r\n" + enc
+                if rng.random() < 0.3:
+                    enc = enc[:rng.randint(1, len(enc))]
+                args = (lvl, 1, cur, off, enc)
+            else:
+                rem = rng.choice([len(body), len(body) + rng.randint(1, 9), max(1, len(body) - rng.randint(0, 5)), 1])
+                buf = body + rng.choice([b"", b"", b"GET /next HTTP/1.1\r\nHost: h\r\n\r\n"])
+                args = (lvl, 0, rem, 0, buf)
+            for tk in (takes, []):
+                lines_in.append("bodytake %d %d %d %d %s %s" % (args[0], args[1], args[2], args[3],
+                                                                ",".join(map(str, tk)) if tk else "-", hx(args[4])))
+                meta.append((args, tk))
+        hout, hrc, herr = vlib.run_lines(self.chunk_harness, lines_in, timeout=1200)
+        mout, mrc, merr = run_driver(self.driver, lines_in)
+        if hrc != 0:
+            failures.append(vlib.Failure("sanitizer", "chunk: harness aborted (rc=%d)" % hrc, herr[-1500:],
+                                         lines_in[len(hout)] if len(hout) < len(lines_in) else lines_in[-1], "chunk"))
+            return 0
+        if mrc != 0 or len(mout) != len(lines_in):
+            failures.append(vlib.Failure("model", "chunk: model driver failed (bodytake)", (merr or "")[-500:], lines_in[0], "chunk"))
+            return 0
+        bt = stats["bodytake"]
+        prev_up = None
+        for j, (h, m) in enumerate(zip(hout, mout)):
+            (lvl, ch, cur, off, buf0), tk = meta[j]
+            d = dict(x.split("=", 1) for x in h.split() if "=" in x)
+            bad = None
+            if "out" not in d:
+                bad = "harness refused the line: %s" % h
+            else:
+                bt["cases"] += 1
+                bt["chunked" if ch else "identity"] += 1
+                oc = d["out"].split(":")[0]
+                bt["outcomes"][oc] = bt["outcomes"].get(oc, 0) + 1
+                up = b"" if d["up"] == "-" else bytes.fromhex(d["up"])
+                if oc in ("need", "last"):
+                    left = b"" if d["buf"] == "-" else bytes.fromhex(d["buf"])
+                    if int(d["left"]) != len(left) or not buf0.endswith(left):
+                        bad = "bytes left in the read buffer are not the tail of the bytes given"
+                    elif not ch:
+                        if up + left != buf0:
+                            bad = "identity body: bytes taken + bytes left differ from the bytes given"
+                        elif int(d["rem"]) != cur - len(up):
+                            bad = "identity body: remaining size did not advance by the number of bytes taken"
+                    else:
+                        consumed = buf0[:len(buf0) - len(left)]
+                        # the bytes taken appear, in order, in the consumed part (chunk data is never rewritten)
+                        it = 0
+                        for byte in up:
+                            it = consumed.find(bytes([byte]), it) + 1
+                            if it == 0:
+                                bad = "chunked body: bytes taken are not a subsequence of the bytes consumed"
+                                break
+                        if tk and int(d["used"]) >= 1 and left and oc == "need" and d["off"] != "0":
+                            pass
+                if tk:
+                    prev_up = up
+                    if oc == "need" and int(d.get("used", 0)) >= 1 and d.get("left", "0") != "0":
+                        bt["partial_take_happened"] += 1
+                elif prev_up is not None and bad is None:
+                    # second line of the pair: the handler took everything
+                    if not up.startswith(prev_up):
+                        bad = "bytes taken under a take pattern are not a prefix of the bytes taken by a take-all handler"
+                    if ch and cur == 0:
+                        st, body, end, feats, why = ref_chunked(buf0, 0, lvl)
+                        if not body.startswith(up):
+                            bad = "decoded bytes are not a prefix of the reference body"
+                    prev_up = None
+            if bad:
+                failures.append(vlib.Failure("oracle", "chunk: partial take: " + bad.split(":")[0][:70], "%s -> %s" % (lines_in[j], h),
+                                             lines_in[j], "chunk"))
+                continue
+            if h != m:
+                failures.append(vlib.Failure("diff", "chunk: model/code differ on a partial upload take", "%s: code '%s' model '%s'" % (lines_in[j], h, m),
+                                             lines_in[j], "chunk"))
+            if len(failures) > 40:
+                break
+        return bt["cases"]
+
     def run_refcheck(self, cases, failures, stats):
         """the Lean reference framer (`Framer.frames`, used in the theorems' spec side) against the
         independent Python reference framer, on the strictly valid prefix of every distinct stream"""
@@ -1292,7 +1454,9 @@ class Spec:
     def explore(self, ctx, boost):
         failures = []
         stats = {"cases": 0, "reqs_seen": 0, "status": {}, "closed": 0, "open": 0, "defect": {}, "lvl": {},
-                 "model_out_of_domain": 0, "small_cases": 0, "chunk_outcomes": {}, "ref_checked": 0}
+                 "model_out_of_domain": 0, "small_cases": 0, "chunk_outcomes": {}, "ref_checked": 0, "head_features": {},
+                 "noncanonical_field_list_cases": 0, "noncanonical_compared_with_model": 0, "take_cases": 0,
+                 "bodytake": {"cases": 0, "partial_take_happened": 0, "chunked": 0, "identity": 0, "outcomes": {}}}
         # corpus first
         cdir = os.path.join(vlib.VERIF, "corpus", ENGINE)
         corpus = []
@@ -1328,11 +1492,13 @@ class Spec:
         self.run_small(sm, failures, stats)
         nchunk = self.run_chunk(ctx, failures, stats, 4 if ctx.tier == "quick" else 5)
         ctx.note("white-box decoder cases done: %d" % nchunk)
+        nbt = self.run_bodytake(ctx, failures, stats, 4000 if ctx.tier == "quick" else 40000)
+        ctx.note("white-box partial-take cases done: %d" % nbt)
         distinct = len({(c["lvl"], c["stream"], tuple(c["behs"]), tuple(c["segs"])) for c in cases})
         samples = [self.case_input(c) for c in (cases[:1] + cases[len(cases) // 2:len(cases) // 2 + 1])]
         for s in samples:
             s["segs"] = s["segs"][:4]
-        cov = {"evaluations": stats["cases"] + stats["small_cases"] + nchunk,
+        cov = {"evaluations": stats["cases"] + stats["small_cases"] + nchunk + nbt,
                "distinct_nontrivial": distinct,
                "rule": "daemon cases = (level, stream, handler script, segmentation) run on the real daemon and on the Lean model; "
                        "distinct = different such tuples; every case also judged by the independent reference framer; "
@@ -1345,6 +1511,10 @@ class Spec:
                "outcomes": {"status": stats["status"], "server_closed": stats["closed"], "left_open": stats["open"],
                             "requests_seen_by_handler": stats["reqs_seen"], "chunk": stats["chunk_outcomes"]},
                "defect_classes": stats["defect"], "levels": stats["lvl"],
+               "noncanonical_field_lists": {"daemon_cases": stats["noncanonical_field_list_cases"],
+                                            "of_which_compared_with_model": stats["noncanonical_compared_with_model"],
+                                            "features": stats["head_features"]},
+               "partial_takes": {"daemon_cases_with_take_pattern": stats["take_cases"], "white_box": stats["bodytake"]},
                "exhaustive": False}
         return failures, cov
 
@@ -1355,7 +1525,9 @@ def replay(ctx, path):
     inp = r["input"]
     fl = []
     stats = {"cases": 0, "reqs_seen": 0, "status": {}, "closed": 0, "open": 0, "defect": {}, "lvl": {},
-             "model_out_of_domain": 0, "small_cases": 0, "chunk_outcomes": {}, "ref_checked": 0}
+             "model_out_of_domain": 0, "small_cases": 0, "chunk_outcomes": {}, "ref_checked": 0, "head_features": {},
+                 "noncanonical_field_list_cases": 0, "noncanonical_compared_with_model": 0, "take_cases": 0,
+                 "bodytake": {"cases": 0, "partial_take_happened": 0, "chunked": 0, "identity": 0, "outcomes": {}}}
     if isinstance(inp, str):
         hout, _, _ = vlib.run_lines(sp.chunk_harness, [inp])
         mout, _, _ = run_driver(sp.driver, [inp])
